@@ -203,7 +203,7 @@ func c19Run(c *evid.Ctx, cs c19Case) {
 		// "the progress channel is always closed on return": the drainer must finish
 		select {
 		case <-closed:
-		case <-time.After(10 * time.Second):
+		case <-time.After(60 * time.Second):
 			c.Violation("C19:progress-not-closed", "CopyLogs returned but the progress channel was not closed", replay)
 			close(progress)
 		}
@@ -429,7 +429,7 @@ func c19Stable(c *evid.Ctx, rng *rand.Rand) {
 		if progress != nil {
 			select {
 			case <-closed:
-			case <-time.After(10 * time.Second):
+			case <-time.After(60 * time.Second):
 				c.Violation("C19:stable-progress-not-closed", "CopyStable returned but the progress channel was not closed", replay)
 			}
 		}
